@@ -2168,6 +2168,13 @@ out:
 		case *kmsg.MessageV1:
 			innerMessage.Offset += base
 			innerMessage.Attributes |= int8(compression)
+			if message.Attributes&0x08 != 0 {
+				// KIP-32: if the wrapper's timestamp type is
+				// LogAppendTime, the wrapper's timestamp
+				// overrides the inner messages' timestamps.
+				innerMessage.Attributes |= 0x08
+				innerMessage.Timestamp = message.Timestamp
+			}
 			if !o.processV1Message(fp, innerMessage) {
 				return i, uncompressedBytes
 			}
